@@ -113,6 +113,12 @@ def check(name, case, rec):
     # objectivity
     PR = P_of(np.einsum("ij,jk...->ik...", R, F))
     rec.close("objectivity P(RF)=R P(F)" + tag, float(np.abs(PR - np.einsum("ij,jk...->ik...", R, P)).max()) / sc, tol, {"params": case["params"]})
+    if e["nstate"] and "lagrange" not in name:
+        # the state variables of the C-based model classes live in the reference configuration: the new state of a step does not
+        # see a superposed rotation either (otherwise the NEXT step would break objectivity although every single call keeps it)
+        s_new = np.asarray(um.gradient([np.ascontiguousarray(F), sv.copy()])[-1], float)
+        s_rot = np.asarray(um.gradient([np.ascontiguousarray(np.einsum("ij,jk...->ik...", R, F)), sv.copy()])[-1], float)
+        rec.close("objectivity new-state(RF)=new-state(F)" + tag, float(np.abs(s_rot - s_new).max()) / max(float(np.abs(s_new).max()), 1e-3), 100 * tol, {"params": case["params"]})
     # symmetric Kirchhoff stress
     tau = np.einsum("ij...,kj...->ik...", P, F)
     rec.close("kirchhoff-symmetric" + tag, float(np.abs(tau - np.swapaxes(tau, 0, 1)).max()) / max(float(np.abs(tau).max()), sc), tol)
